@@ -40,6 +40,11 @@ def generate(rng, tier):
             us = users_for(rng, nm)
         for i in range(0, len(us), 40):
             ops.append('op realm %s %s' % (hx(nm.encode()), ' '.join(hx(x) for x in us[i:i + 40])))
+    # a matching block with dynamically discovered sub-realms: the sub-realm, else the block itself
+    for _ in range(400 if tier == 'thorough' else 40):
+        pool = [b'u@a.example', b'v@a.example', b'u@b.example', b'nobody', b'u@A.EXAMPLE', b'x@sub.a.example', b'u@a.examplex', b'u@;bad', b'w@c.test', b'u@xa.example']
+        seq = [rng.choice(pool) for _ in range(rng.randrange(2, 7))]
+        ops.append('op dynrealm %s %s' % (hx(b'srv:_radsec._tcp'), ' '.join(hx(x) for x in seq)))
     cases = [(cid, ['cfg nopipe'] + l) for cid, l in batch(ops, 'realm', 10)]
     # routing through the pipeline: ordered realm lists
     def mod(rng, cfg):
